@@ -1,4 +1,142 @@
-"""Engine A runner (CBMC). Filled in later; placeholder so that check.py imports."""
+"""Engine A: plain-C units through goto-cc / cbmc 6.11 (bit-precise, with unwinding assertions).
+
+Harness header keys (in addition to the common ones):
+  @sources <files relative to /repo>     real C sources compiled with the harness
+  @unwind N                               loop bound; --unwinding-assertions turns a too-small bound into a failure
+  @cbmc_flags ...                         extra flags
+"""
+import os, re, sys, json, time, subprocess, hashlib, resource
+from . import pipeline as P, runner
+
+ROOT = P.ROOT
+STD = ["--unwinding-assertions", "--pointer-overflow-check", "--undefined-shift-check", "--signed-overflow-check",
+       "--memory-leak-check", "--drop-unused-functions", "--no-malloc-may-fail"]
+
+
+def _hdr(path, key):
+    out = []
+    for ln in open(path):
+        m = re.match(r"\s*//\s*@%s\s+(.*)$" % key, ln)
+        if m:
+            out += m.group(1).split()
+    return out
+
+
 def work(args):
     path, tier, seed, only, verbose = args
-    return []
+    obls = [o for o in runner.parse_header(path) if (tier == "thorough" or o.tier == "Q") and (not only or o.id in only)]
+    res = []
+    for o in obls:
+        t0 = time.time()
+        R = {"id": o.id, "prop": o.prop, "engine": "A", "entry": o.entry, "harness": os.path.relpath(path, ROOT),
+             "tier": o.tier, "bounds": o.text.get("bounds", ""), "oracle": o.text.get("oracle", ""),
+             "outside": o.text.get("outside", ""), "stubs": o.text.get("stubs", ""), "status": "pass"}
+        try:
+            _one(o, path, tier, R)
+        except Exception as e:
+            R["status"] = "error"
+            R["error"] = "%s: %s" % (type(e).__name__, str(e)[-1500:])
+        R["wall_s"] = round(time.time() - t0, 2)
+        res.append(R)
+    return res
+
+
+def _one(o, path, tier, R):
+    thorough = tier == "thorough"
+    srcs = [os.path.join(P.REPO, s) for s in _hdr(path, "sources")]
+    unwind = int((_hdr(path, "unwind") or ["8"])[0]) * (2 if thorough else 1)
+    key = runner._h(open(path, "rb").read(), *[open(s, "rb").read() for s in srcs], tier, o.entry)
+    wd = os.path.join(P.BUILD, "a", "%s-%s" % (o.entry, key))
+    os.makedirs(wd, exist_ok=True)
+    incs = [f for f in P.repo_flags() if f.startswith(("-I", "-D"))] + ["-I" + os.path.join(ROOT, "rt")]
+    tierdef = "-DVF_TIER=%d" % (2 if thorough else 1)
+
+    def build(out, extra):
+        P.run(["goto-cc", "-o", out, "--function", o.entry, path, os.path.join(ROOT, "rt", "vf_cbmc.c")] + srcs + incs + [tierdef, "-DVF_CBMC"] + extra)
+
+    gb = os.path.join(wd, "h.goto")
+    wb = os.path.join(wd, "w.goto")
+    build(gb, [])
+    build(wb, ["-DVF_WITNESS"])
+    flags = STD + ["--unwind", str(unwind)] + _hdr(path, "cbmc_flags")
+    tmo = 1500 if thorough else 300
+
+    def cbmc(binary, extra):
+        t = time.time()
+        try:
+            r = subprocess.run(["cbmc", binary, "--function", o.entry] + flags + extra, stdout=subprocess.PIPE,
+                               stderr=subprocess.PIPE, text=True, timeout=tmo)
+        except subprocess.TimeoutExpired:
+            return None, "", time.time() - t
+        return r.returncode, r.stdout, time.time() - t
+
+    # vacuity witness: the assert(0) placed at vf_reach must be violated
+    rc, out, dt = cbmc(wb, [])
+    if rc is None:
+        R["status"] = "inconclusive"
+        R["error"] = "cbmc gave no verdict within %d s (witness run)" % tmo
+        return
+    if "VF-WITNESS reachable: FAILURE" not in out:
+        R["status"] = "error"
+        R["error"] = "vacuity witness not reachable (harness never reaches its checks)"
+        return
+    rc, out, dt2 = cbmc(gb, ["--trace"])
+    if rc is None:
+        R["status"] = "inconclusive"
+        R["error"] = "cbmc gave no verdict within %d s" % tmo
+        return
+    props = re.findall(r"^\[([^\]]+)\] (?:line \d+ )?(.*): (SUCCESS|FAILURE)$", out, re.M)
+    R["cbmc"] = {"unwind": unwind, "flags": flags, "properties_checked": len(props),
+                 "failed": [(a, b) for a, b, c in props if c == "FAILURE"][:10], "solver_s": round(dt + dt2, 2)}
+    m = re.search(r"(\d+) variables, (\d+) clauses", out)
+    R["ssa_steps"] = int((re.search(r"size of program expression: (\d+) steps", out) or [0, 0])[1])
+    R["paths"] = 1
+    R["queries"] = len(props)
+    R["solver_s"] = round(dt + dt2, 2)
+    R["functions_encoded"] = [{"name": f} for f in sorted(set(re.findall(r"function (\w+)", out)))][:40]
+    R["n_functions_encoded"] = len(R["functions_encoded"])
+    R["reached"] = {"witness": 1}
+    R["checks"] = {b: {"unsat": int(c == "SUCCESS"), "sat": int(c == "FAILURE"), "unknown": 0, "concrete_ok": 0, "concrete_fail": 0}
+                   for a, b, c in props if not a.startswith(("malloc", "free.precond"))}
+    if "VERIFICATION SUCCESSFUL" in out:
+        return
+    if "VERIFICATION FAILED" not in out:
+        R["status"] = "error"
+        R["error"] = "cbmc: " + out[-600:]
+        return
+    # counterexample -> positional inputs -> native replay
+    vals = {}
+    for mm in re.finditer(r"vf_in_(l|d)val\[(\d+)l?\]=([^\s]+)", out):
+        vals[(mm.group(1), int(mm.group(2)))] = mm.group(3)
+    kinds = {int(k): int(v) for k, v in re.findall(r"vf_in_kind\[(\d+)l?\]=(\d+)", out)}
+    vec = []
+    nin = re.findall(r"vf_in_n=(\d+)", out)
+    nin = int(nin[-1]) if nin else len(kinds)
+    for k in sorted(kinds):
+        if k >= nin:
+            continue
+        raw = vals.get(("d" if kinds[k] == 1 else "l", k), "0")
+        raw = raw.rstrip("lfu")
+        try:
+            v = float(raw) if kinds[k] == 1 else int(raw)
+        except ValueError:
+            v = 0
+        vec.append(("@%d" % k, v))
+    failed = [b for a, b, c in props if c == "FAILURE"]
+    exe = os.path.join(wd, "native.exe")
+    confirmed = []
+    try:
+        P.run(["clang-14", "-O1", "-g", "-fsanitize=address,undefined", "-fno-sanitize-recover=undefined"] + incs + [tierdef, "-DVF_ENTRY=" + o.entry, path,
+               os.path.join(ROOT, "rt", "vf_native.c"), "-DVF_NO_CXX"] + srcs + ["-o", exe, "-lm"])
+        nat = runner.run_native(exe, vec, wd, "cex")
+        bad = [l for l in nat["lines"] if l[2] == 0]
+        crashed = nat["rc"] not in (0,) and not nat["assume_false"]
+        if bad or crashed:
+            confirmed.append({"label": (bad[0][1] if bad else failed[0] if failed else "memory-safety"), "inputs": dict(vec),
+                              "replayed": True, "detail": ("sanitizer/crash rc=%s %s" % (nat["rc"], nat["stderr"][-300:])) if crashed else "",
+                              "native": [list(x) for x in nat["lines"][:6]]})
+    except Exception as e:
+        R["replay_error"] = str(e)[-500:]
+    R["cex"] = confirmed or [{"label": failed[0] if failed else "?", "inputs": dict(vec), "replayed": False}]
+    R["confirmed"] = confirmed
+    R["status"] = "violation" if confirmed else "inconclusive"
